@@ -141,6 +141,59 @@ pub fn run(reg: &dyn Registry, ctx: &Ctx) -> Outcome {
             }
         }
 
+        // states directed at the *inside* of a jump: the accumulator of a jump loop after the first m bits
+        // of the jump polynomial is q_m(T) s (q_m = the polynomial's prefix; the polynomial itself is
+        // recovered from T as x^(2^k) mod charpoly). States are solved so that this partial sum has a
+        // special word pattern (a zero word, equal words, ...) at every word boundary m of the polynomial,
+        // and the jump from there is compared with T^(2^k) s.
+        if model_ok && bound {
+            let w = info.word_bits;
+            for (op, k, want) in [(LinOp::Jump, n / 2, &tj), (LinOp::LongJump, 3 * n / 4, &tl)] {
+                let Some(poly) = linear::jump_polynomial(&t.ex.mat, want) else {
+                    ctx.note(&format!("{}_{}_polynomial", info.name, op.name()), json!("not recovered"));
+                    continue;
+                };
+                let starts: Vec<(usize, BitVec)> = (1..(n / w))
+                    .into_par_iter()
+                    .flat_map(|q| {
+                        let m = q * w;
+                        let am = linear::prefix_polynomial_matrix(&t.ex.mat, &poly, m);
+                        linear::special_images(n, w, ctx.seed ^ (m as u64) << 8)
+                            .into_par_iter()
+                            .filter_map(|img| am.solve(&img).filter(|s0| !s0.is_zero()).map(|s0| (m, s0)))
+                            .collect::<Vec<_>>()
+                    })
+                    .collect();
+                ctx.add("partial_accumulator_directed_states", starts.len() as u64);
+                let res: Vec<(usize, &BitVec, Result<bool, String>)> = starts
+                    .par_iter()
+                    .map(|(m, s)| {
+                        let pred = want.apply(s);
+                        let r = (|| -> Result<bool, String> {
+                            let mut g = linear::make_state(*ty, s)?;
+                            linear::apply_op(&mut g, op, info.word_bits)?;
+                            let mut e = linear::make_state(*ty, &pred)?;
+                            let same = (0..4).all(|_| native(&mut g, info.word_bits) == native(&mut e, info.word_bits));
+                            Ok(same && g.eq_dyn(e.as_ref()) == Some(true))
+                        })();
+                        (*m, s, r)
+                    })
+                    .collect();
+                ctx.add("transitions", 4 * starts.len() as u64);
+                for (m, s, r) in res {
+                    if r != Ok(true) {
+                        let pred = want.apply(s);
+                        ctx.violation(
+                            &format!("C06:{}:{}-partial-sum", info.name, op.name()),
+                            &format!("{}: {}() from state {} (whose partial polynomial sum after {} bits has a special word pattern) does not reach the state 2^{} steps ahead, {} ({:?})", info.name, op.name(), hex(&s.to_bytes()), m, k, hex(&pred.to_bytes()), r),
+                            json!({"kind":"jump-witness","type":info.name,"op":op.name(),"state":hex(&s.to_bytes()),"expected_state":hex(&pred.to_bytes())}),
+                        );
+                        break;
+                    }
+                }
+            }
+        }
+
         // linearity-free necessary relations on the real code
         let mut states: Vec<BitVec> = alphabet::w1(len).iter().map(|s| bits(s)).collect();
         states.extend(alphabet::wz(len).iter().map(|s| bits(s)));
